@@ -581,6 +581,8 @@ func (e *c19DrvEnv) observeAnswer(m sim.Msg) {
 			}
 			if !mapped && !free && !c19DrvLeakReported && uint64(p.gpu+1) != q.host {
 				c19DrvLeakReported = true
+				// regression oracle of the REPAIRED finding C19-old-frame-not-released: the driver gives the old frame back
+				// (MemoryAllocator.ReleasePhysicalPage) when it handles the page's PageMigrationRspToDriver
 				e.failf("C19.drv.old-frame-not-released", "request %d answered: page %x moved from frame %x on GPU %d to GPU %d; the old frame is mapped by no page and is not in the free list of device %d (%d free frames): it is lost for ever",
 					q.id, p.va, p.oldPA, q.host, p.gpu+1, q.host, len(hostFree))
 			}
